@@ -82,10 +82,49 @@ Definition label_close (r : fk_result) (out : option (list Q)) : bool :=
   | _, _ => false
   end.
 
+(* Negative example weights: np.interp's xp is then not monotone and NumPy's search
+   (guess + bisection) is not the model's scan, so the interpolated indices are not
+   compared.  C18_valid_for_any_interp_indices says what every in-range index vector
+   leads to: exactly k strictly increasing members of the model's distinct values, from
+   the smallest to the largest; that is checked on the implementation's result.  Used only
+   where the model does not raise (reduced weight sum <> 0) and indices are computed. *)
+(* 'quantiles' results are data values: the same comparison with exact equality (the relative
+   tolerance of [out_close] cannot tell neighbouring values apart at magnitudes like 1e16) *)
+Fixpoint qlist_eq (a b : list Q) : bool :=
+  match a, b with
+  | [], [] => true
+  | x :: a', y :: b' => Qeq_bool x y && qlist_eq a' b'
+  | _, _ => false
+  end.
+Definition check_ck_eq (gs : list grp) (k : nat) (w : bool) (red : reduction) (out : option (list Q)) : bool :=
+  existsb (fun ups => opt_close qlist_eq (finish (rnd_ch ups) false gs k Quantiles w red) out
+                      || opt_close qlist_eq (finish (rnd_ch ups) true gs k Quantiles w red) out)
+          (choices (raw_indices gs k Quantiles w red)).
+Definition has_neg (ws : option (list Q)) : bool :=
+  match ws with Some w => existsb (fun x => qlt x 0) w | None => false end.
+Definition check_sel (sv : list Q) (k : nat) (o : list Q) : bool :=
+  (length o =? k)%nat && strictly_inc_b o
+  && forallb (fun x => existsb (fun y => qclose tol y x) sv) o
+  && qclose tol (hd 0 sv) (hd 0 o) && qclose tol (last sv 0) (last o 0).
+Definition neg_applies (gs : list grp) (k : nat) (mode : kmode) (ws : option (list Q)) (red : reduction) : bool :=
+  has_neg ws && (2 <=? k)%nat && (k <=? length gs)%nat
+  && match mode with Quantiles => true | _ => false end
+  && match red with ROther => false | _ => negb (Qeq_bool (qsum (map (reduce red) gs)) 0) end.
+Definition check_direct (vs : list Q) (k : nat) (mode : kmode) (cmin cmax dv : option Q)
+           (ws : option (list Q)) (red : reduction) (out : option (list Q)) : bool :=
+  let gs := sort_unique (prep vs ws cmin cmax dv) in
+  if neg_applies gs k mode ws red
+  then match out with Some o => check_sel (map gv gs) k o | None => false end
+  else check_ck vs k mode cmin cmax dv ws red out
+       && match mode with
+          | Quantiles => check_ck_eq gs k (is_some ws) red out   (* data values: exact, at every magnitude *)
+          | _ => true
+          end.
+
 Definition check (c : case) : bool :=
   match c with
   | Direct vs k mode cmin cmax dv ws red out pwl =>
-    check_ck vs k mode cmin cmax dv ws red out
+    check_direct vs k mode cmin cmax dv ws red out
     && match out with Some o => Bool.eqb (pwl_keypoints_ok o) pwl | None => true end
   | Feature fcs features ws red out =>
     let model := compute_feature_keypoints rnd_he false fcs features ws red in
